@@ -1,6 +1,246 @@
-//! Monitor for C09 (see /verif/DESIGN.md §5 C09).
-use vcommon::Args;
+//! C09 (instruction-level part) — positions are left healthy, only unhealthy ones can be liquidated,
+//! ADL only when the pnl factor exceeded its limit.
+//!
+//! The model-level part (threshold recomputation with BigInt) lives in model-mon; the two parts write
+//! `evidence/C09.<part>.json`, merged by `/verif/check`.
+//!
+//! Observed here, through the real `liquidate` / `auto_deleverage` / `execute_*_order` instructions:
+//!  * every successful liquidation removes the whole position (size and collateral zero afterwards);
+//!  * right after a successful increase (same prices, same clock) a *simulated* liquidation of that
+//!    position is rejected — the increase did not leave it liquidatable;
+//!  * a successful ADL: the pnl-to-pool factor recomputed from the pre-state market account and the
+//!    prices recorded in the trade event exceeded the configured limit, the post-state factor is
+//!    strictly lower and not below the configured minimum.
+use crate::sim::{Op, Sim, E18};
+use crate::world::{
+    exchange::{load, OrderKind, OrderReq},
+    *,
+};
+use anchor_lang::prelude::Pubkey;
+use gmsol_model::{price::{Price, Prices}, BaseMarket, BaseMarketExt, PnlFactorKind};
+use gmsol_store::{events::TradeData, states::{Market, Order, Position}};
+use hostsvm::token;
+use vcommon::{json, monitor::run_shards, Args, Monitor, Rng};
 
-pub fn run(_args: &Args) -> Option<i32> {
-    None
+fn position_size(svm: &hostsvm::Svm, p: &Pubkey) -> Option<(u128, u128, u128)> {
+    load::<Position>(svm, p).map(|p| (p.state.size_in_usd, p.state.size_in_tokens, p.state.collateral_amount))
+}
+
+fn sim_part(args: &Args, shard: u64, m: &mut Monitor) {
+    let steps = args.scale(300, 800);
+    let mut sim = Sim::new(args.seed, shard);
+    for step in 0..steps {
+        let rec = sim.step();
+        match &rec.op {
+            Op::Liquidate { position } => {
+                m.eval();
+                if rec.ok() {
+                    m.count("liquidation_succeeded");
+                    m.nontrivial(format!("liq:{position}").as_bytes());
+                    match position_size(&sim.w.svm, position) {
+                        None => m.count("liquidated_position_account_closed"),
+                        Some((0, 0, 0)) => m.count("liquidated_position_zeroed"),
+                        Some(s) => m.violation(
+                            "C09:liquidate:position_not_fully_closed",
+                            json!({"shard": shard, "step": step, "size_usd": s.0.to_string(), "size_tokens": s.1.to_string(), "collateral": s.2.to_string(), "history": sim.history}),
+                        ),
+                    }
+                } else {
+                    m.count("liquidation_rejected");
+                }
+            }
+            Op::Execute { action, .. } if rec.ok() => {
+                let a = sim.actions[*action].clone();
+                if a.kind != crate::sim::ActKind::Order || a.is_position_cut {
+                    continue;
+                }
+                // an increase that completed?
+                let Some(o) = load::<Order>(&sim.w.svm, &a.addr) else { continue };
+                let Ok(kind) = o.params().kind() else { continue };
+                if !matches!(kind, OrderKind::MarketIncrease | OrderKind::LimitIncrease) {
+                    continue;
+                }
+                use gmsol_store::states::common::action::Action;
+                if !o.header().action_state().map(|s| s.is_completed()).unwrap_or(false) {
+                    continue;
+                }
+                let Some(pos) = o.params().position().copied() else { continue };
+                if position_size(&sim.w.svm, &pos).map(|s| s.0 == 0).unwrap_or(true) {
+                    continue;
+                }
+                // simulated liquidation at the same prices / clock must be rejected
+                let keeper = sim.w.keeper;
+                let mut w2 = sim.w.clone();
+                if let Some((ixs, _)) = w2.position_cut_ixs(keeper, pos, None) {
+                    m.eval();
+                    match w2.svm.process(&ixs, &[keeper]) {
+                        Ok(_) => m.violation(
+                            "C09:increase:position_liquidatable_right_after_successful_increase",
+                            json!({"shard": shard, "step": step, "position": pos.to_string(), "history": sim.history}),
+                        ),
+                        Err(_) => {
+                            m.count("healthy_after_increase_confirmed_by_rejected_liquidation");
+                            m.nontrivial(format!("inc:{pos}:{step}").as_bytes());
+                        }
+                    }
+                }
+            }
+            _ => {}
+        }
+    }
+}
+
+fn unit_price(usd_e18: u128, decimals: u8) -> u128 {
+    usd_e18 * 100 / 10u128.pow(decimals as u32)
+}
+
+/// Dedicated ADL scenario.
+fn adl_part(args: &Args, shard: u64, m: &mut Monitor) {
+    let mut rng = Rng::derive(args.seed, shard, 0x0901);
+    let rounds = args.scale(6, 20);
+    for round in 0..rounds {
+        let mut w = World::bootstrap_store();
+        w.bootstrap_oracle();
+        let btc = w.add_token("BTC", 8, 2, true);
+        let sol = w.add_token("SOL", 9, 4, false);
+        let usdc = w.add_token("USDC", 6, 6, false);
+        let mk = w.add_market(btc, sol, usdc);
+        let is_long = rng.bool();
+        let max_adl = rng.range_u128(5, 40) * UNIT / 100;
+        let min_after = max_adl / rng.range_u128(2, 5);
+        let side = if is_long { "long" } else { "short" };
+        let _ = w.set_market_config(mk, &format!("max_pnl_factor_for_{side}_adl"), max_adl);
+        let _ = w.set_market_config(mk, &format!("min_pnl_factor_after_{side}_adl"), min_after);
+        let mut btc_p = 60_000 * E18;
+        let publish = |w: &mut World, btc_p: u128| {
+            let _ = w.set_price(btc, btc_p - btc_p / 10_000, btc_p, btc_p + btc_p / 10_000);
+            let _ = w.set_price(sol, 150 * E18, 150 * E18, 150 * E18);
+            let _ = w.set_price(usdc, E18, E18, E18);
+        };
+        publish(&mut w, btc_p);
+        let lp = w.add_user("lp");
+        let (sol_m, usdc_m) = (w.tokens[sol].mint, w.tokens[usdc].mint);
+        token::fund_ata(&mut w.svm, &lp, &sol_m, 1_000_000 * 1_000_000_000);
+        token::fund_ata(&mut w.svm, &lp, &usdc_m, 100_000_000 * 1_000_000);
+        let d = w.create_deposit(lp, mk, 6_000 * 1_000_000_000, 1_000_000 * 1_000_000, None, None, &[], &[], 0);
+        let Ok(d) = d else { m.inconclusive("adl scenario: lp deposit failed"); return };
+        if w.execute_deposit(d, true).is_err() {
+            m.inconclusive("adl scenario: lp deposit execution failed");
+            return;
+        }
+        // traders
+        let mut positions = vec![];
+        for t in 0..3 {
+            let u = w.add_user(&format!("t{t}"));
+            token::fund_ata(&mut w.svm, &u, &usdc_m, 10_000_000 * 1_000_000);
+            let mut req = OrderReq::new(OrderKind::MarketIncrease, mk, is_long, false);
+            let coll = rng.range(5_000, 40_000);
+            req.initial_collateral_delta_amount = coll * 1_000_000;
+            req.size_delta_value = coll as u128 * rng.range_u128(2, 8) * UNIT;
+            if let Ok(o) = w.create_order(u, &req) {
+                if w.execute_order(o, true).is_ok() {
+                    positions.push(w.position_pda(&u, mk, is_long, false));
+                    m.count("adl_scenario_positions_opened");
+                }
+            }
+        }
+        if positions.is_empty() {
+            m.count("adl_scenario_without_positions");
+            continue;
+        }
+        // move the price in the traders' favour until ADL becomes possible, trying ADL along the way
+        for hop in 0..8 {
+            w.svm.warp(rng.range_i64(2, 20));
+            btc_p = if is_long { btc_p / 100 * rng.range(105, 125) as u128 } else { btc_p / 100 * rng.range(80, 96) as u128 };
+            publish(&mut w, btc_p);
+            let keeper = w.keeper;
+            let ix = w.update_adl_state_ix(keeper, mk, is_long);
+            let _ = w.send(&[ix], &[keeper]);
+            let enabled = load::<Market>(&w.svm, &w.markets[mk].market).map(|x| x.is_adl_enabled(is_long)).unwrap_or(false);
+            m.count(if enabled { "adl_enabled_observed" } else { "adl_not_enabled_observed" });
+            for p in positions.clone() {
+                let Some((size, _, _)) = position_size(&w.svm, &p) else { continue };
+                if size == 0 {
+                    continue;
+                }
+                let s = match rng.below(3) {
+                    0 => size,
+                    _ => rng.range_u128(size / 10 + 1, size),
+                };
+                let pre_market: Option<Market> = load(&w.svm, &w.markets[mk].market);
+                let res = w.auto_deleverage(p, s);
+                m.eval();
+                match res {
+                    Err(_) => m.count("adl_rejected"),
+                    Ok(_) => {
+                        m.count("adl_succeeded");
+                        m.nontrivial(format!("adl:{round}:{hop}:{p}").as_bytes());
+                        let keeper = w.keeper;
+                        let Some(ev) = load::<TradeData>(&w.svm, &w.event_buffer(&keeper, 0)) else {
+                            m.inconclusive("trade event buffer unreadable");
+                            continue;
+                        };
+                        let tp = &ev.prices;
+                        let prices = Prices {
+                            index_token_price: Price { min: tp.index.min, max: tp.index.max },
+                            long_token_price: Price { min: tp.long.min, max: tp.long.max },
+                            short_token_price: Price { min: tp.short.min, max: tp.short.max },
+                        };
+                        let (Some(pre), Some(post)) = (pre_market, load::<Market>(&w.svm, &w.markets[mk].market)) else { continue };
+                        let limit = pre.pnl_factor_config(PnlFactorKind::ForAdl, is_long).unwrap_or(0);
+                        let min_after_cfg = pre.pnl_factor_config(PnlFactorKind::MinAfterAdl, is_long).unwrap_or(0);
+                        let f_pre = pre.pnl_factor(&prices, is_long, true);
+                        let f_post = post.pnl_factor(&prices, is_long, true);
+                        let (Ok(f_pre), Ok(f_post)) = (f_pre, f_post) else {
+                            m.count("adl_factor_not_computable");
+                            continue;
+                        };
+                        let wit = json!({"shard": shard, "round": round, "hop": hop, "is_long": is_long, "size_delta": s.to_string(),
+                            "limit": limit.to_string(), "min_after": min_after_cfg.to_string(), "factor_before": f_pre.to_string(), "factor_after": f_post.to_string(),
+                            "btc_price_e18": btc_p.to_string()});
+                        if !(f_pre > 0 && f_pre as u128 > limit) {
+                            m.violation("C09:adl:succeeded_although_pnl_factor_within_limit", wit.clone());
+                        }
+                        if f_post >= f_pre {
+                            m.violation("C09:adl:pnl_factor_not_lowered", wit.clone());
+                        }
+                        if f_post < 0 || (f_post as u128) < min_after_cfg {
+                            m.violation("C09:adl:pnl_factor_below_configured_minimum", wit.clone());
+                        }
+                        if !enabled {
+                            m.violation("C09:adl:succeeded_while_adl_state_disabled", wit);
+                        }
+                    }
+                }
+            }
+        }
+        let _ = unit_price;
+    }
+}
+
+pub fn run(args: &Args) -> Option<i32> {
+    let mut mon = Monitor::new(
+        args,
+        "instruction level: (a) exchange workload (sim.rs): every successful liquidation must zero / close the \
+         position; after every completed increase a simulated liquidation at the same prices must be rejected; \
+         (b) dedicated ADL scenarios (lowered pnl-factor limits, price moved in the traders' favour, update_adl_state, \
+         auto_deleverage with random sizes): factor before / after recomputed from the market accounts and the prices \
+         in the trade event. non-trivial = a successful liquidation / a confirmed-healthy increase / a successful ADL; \
+         distinct = the position / step",
+    );
+    mon.assume("pnl factors are recomputed with gmsol-model's own pnl_factor on the program's Market accounts (the check is on the guard around it, not on the formula; the formula is covered by model-mon)");
+    mon.assume("the decrease clause is judged in the model-level part (known finding C09:decrease:min_collateral_usd_not_revalidated)");
+    let shards = args.scale(32, 128);
+    let quiet = hostsvm::QuietStdout::new();
+    run_shards(&mut mon, args.threads, shards, |shard, m| {
+        if shard % 4 == 3 {
+            adl_part(args, shard, m);
+        } else {
+            sim_part(args, shard, m);
+        }
+    });
+    drop(quiet);
+    mon.require("healthy_after_increase_confirmed_by_rejected_liquidation", 50);
+    mon.require("liquidation_rejected", 20);
+    Some(mon.finish())
 }
